@@ -16,7 +16,7 @@ RULE = ("executable programs over the native gate set with aliases-of-aliases an
 ASSUMPTIONS = ["statement-level queries on busy gates are made through the circuit only",
                "reference used set = syntactic reachability through macros, loops of any count, nested blocks, aliases, lets; busy = all qubits, idle = none"]
 TIERS = {"quick": {"shards": 8, "budget_s": 240}, "thorough": {"shards": 16, "budget_s": 360}}
-REQUIRE = {"circuits-built-through-CircuitBuilder": 800, "whole-register-arguments-analysed": 3000, "busy-gate-beside-active": 100, "busy-gate-beside-active:stretched": 100, "macro-parameters-given-a-kind": 500, "macro-bodies-analysed-in-a-second-call-site-scope": 100, "macro-bodies-analysed-in-call-site-scope": 300, "gate-set:Ad": 500, "overlap:ref-yes": 100, "overlap:ref-no": 300, "used-circuit-compared": 500, "used-statement-compared": 500,
+REQUIRE = {"bounding-gate-in-a-parallel-block:emulator": 300, "bounding-gate-in-a-parallel-block:output-list": 300, "circuits-built-through-CircuitBuilder": 800, "whole-register-arguments-analysed": 3000, "busy-gate-beside-active": 100, "busy-gate-beside-active:stretched": 100, "macro-parameters-given-a-kind": 500, "macro-bodies-analysed-in-a-second-call-site-scope": 100, "macro-bodies-analysed-in-call-site-scope": 300, "gate-set:Ad": 500, "overlap:ref-yes": 100, "overlap:ref-no": 300, "used-circuit-compared": 500, "used-statement-compared": 500,
            "permutations-compared": 100, "merge-decisions-observed": 500, "idle-beside-active": 10}
 
 MERGE_LOG = []
@@ -418,6 +418,60 @@ def busy_beside(rng, prog, stretched):
     return ("circuit",) + tuple(out) if done else None
 
 
+def bounding_gate_in_parallel_probe(ctx, count):
+    """The gates that bound a subcircuit are busy gates: they use every qubit.  A parallel block with prepare_all or
+    measure_all in one branch -- directly, at the end of a sequential branch, or through a parameterless macro -- and a gate
+    on some qubit in another branch has intersecting branches and is refused (JaqalError), in either order of the branches,
+    by the emulator and by the reader of hardware output lists (the same walk)."""
+    rec, rng = ctx.rec, ctx.rng
+    for _ in range(count):
+        n = rng.randint(1, 4)
+        k = rng.randrange(n)
+        bound = rng.choice(["prepare_all", "measure_all"])
+        how = rng.choice(["direct", "in-sequential-branch", "through-a-macro", "idle-beside"])
+        act = ("gate", rng.choice(["X", "H", "S"]), ("array_item", "q", k))
+        macros = ()
+        if how == "direct":
+            b = ("gate", bound)
+        elif how == "in-sequential-branch":
+            other = ("gate", "X", ("array_item", "q", (k + 1) % n))
+            b = ("sequential_block", other, ("gate", bound)) if bound == "measure_all" else ("sequential_block", ("gate", bound), other)
+            if n == 1:
+                b = ("sequential_block", ("gate", bound))
+        elif how == "through-a-macro":
+            macros = (("macro", "reset", ("sequential_block", ("gate", bound))),)
+            b = ("gate", "reset")
+        else:
+            b = ("gate", bound)
+        branches = [b, act]
+        if rng.random() < 0.5:
+            branches.reverse()
+        par = ("parallel_block",) + tuple(branches)
+        where = rng.choice(["top", "in-loop", "in-block"])
+        wrapped = {"top": par, "in-loop": ("loop", rng.choice([1, 2]), ("sequential_block", par)), "in-block": ("sequential_block", par)}[where]
+        body = [("gate", "prepare_all")] + ([("gate", "X", ("array_item", "q", k))] if rng.random() < 0.5 else []) + [wrapped, ("gate", "measure_all")]
+        prog = ("circuit", ("register", "q", n)) + macros + tuple(body)
+        text = sx.to_text(prog)
+        rec.case([prog, "bounding-in-parallel"], nontrivial=True)
+        o = lib.outcome(lib.parse, text, X.native())
+        if o[0] != "ok":
+            rec.count("bounding-gate-in-a-parallel-block:refused-when-parsed")
+            if o[0] == "exc":
+                rec.violation(sig("C13", "bounding-gate-in-parallel:crash:parse"), {"text": text, "error": str(o[1:3])[:200]}, {"kind": "whole", "prog": prog})
+            continue
+        for consumer in ("emulator", "output-list"):
+            if consumer == "emulator":
+                r = lib.budgeted(lib.run, 200000, o[1])
+            else:
+                r = lib.budgeted(lib.parse_output, 200000, o[1], [0] * 8)
+            rec.count("bounding-gate-in-a-parallel-block:" + consumer)
+            if r[0] == "ok":
+                rec.violation(sig("C13", "accepts-overlapping-branches:bounding-gate-in-a-parallel-block:%s:%s" % (how, consumer)),
+                              {"text": text, "branch": how, "where": where}, {"kind": "whole", "prog": prog})
+            elif r[0] == "exc":
+                rec.violation(sig("C13", "bounding-gate-in-parallel:crash:%s:%s" % (consumer, r[1])), {"text": text, "error": str(r[1:3])[:200]}, {"kind": "whole", "prog": prog})
+
+
 def shard(ctx):
     rec = ctx.rec
     monitors.install_contracts()
@@ -456,6 +510,7 @@ def shard(ctx):
         if i <= 3:
             rec.sample({"text": sx.to_text(prog)})
     whole_register_probe(ctx, 150 if ctx.quick else 3000)
+    bounding_gate_in_parallel_probe(ctx, 60 if ctx.quick else 1500)
     monitors.report_contracts(rec)
 
 
